@@ -30,7 +30,7 @@ COMPONENTS = {"real": ["amaranth.sim.Simulator / PySimEngine.step_design / advan
               "stub": ["PermSet scheduler seam over _processes, _active_triggers, pending, nearest_wakers",
                        "integer-arithmetic reference of circuit + testbench scripts"]}
 EXPECTED_PROBES = ("sched", "tie", "zero_delay", "replaced_comb", "replaced_sync", "twins_same_instant", "coincident_domains",
-                   "set_then_get", "tick_sample", "edge_wait", "changed_wait")
+                   "set_then_get", "tick_sample", "edge_wait", "changed_wait", "woken_by_testbench")
 HANG_IS_VIOLATION = True
 CHUNK = 4
 PARTS = ["s1", "s2", "s3", "r1", "r2", "out"]
@@ -70,7 +70,7 @@ def gen_case(seed, tier):
         ops = []
         for _ in range(wl.randint(*nops)):
             k = wl.choice(["tick", "tick", "sample", "repeat", "delay", "delay_edge", "delay0", "set", "set", "get", "get",
-                           "edge", "changed"])
+                           "edge", "changed", "changed_in"])
             if k == "tick":
                 ops.append({"k": "tick", "dom": wl.choice(doms)})
             elif k == "sample":
@@ -88,6 +88,8 @@ def gen_case(seed, tier):
                 ops.append({"k": "set", "sig": sig, "v": wl.randrange(1 << w) if sig == "x" else wl.randint(0, 1)})
             elif k == "get":
                 ops.append({"k": "get"})
+            elif k == "changed_in":
+                ops.append({"k": "changed_in", "sig": wl.choice(["x", "x", "en", "wen2"])})     # woken by another testbench's set()
             elif k == "edge":
                 ops.append({"k": "edge", "sig": wl.choice(["r1", "r2"]), "bit": wl.randrange(w), "pol": wl.randint(0, 1)})
             else:
@@ -110,7 +112,7 @@ def gen_case(seed, tier):
             break
         except Unreachable:
             for (i, j) in ref.stuck:
-                if tbs[i][j]["k"] in ("edge", "changed"):
+                if tbs[i][j]["k"] in ("edge", "changed", "changed_in"):
                     tbs[i] = tbs[i][:j] + tbs[i][j + 1:]
                 else:
                     tbs[i] = tbs[i][:j]
@@ -192,12 +194,21 @@ class Reference:
                 op = ops[pc[i]]
                 k = op["k"]
                 if k == "set":
+                    before = (self.x, self.en, self.wen2)
                     if op["sig"] == "x":
                         self.x = op["v"] & self.mask
                     elif op["sig"] == "wen2":
                         self.wen2 = op["v"] & 1
                     else:
                         self.en = op["v"] & 1
+                    newv = {"x": self.x, "en": self.en, "wen2": self.wen2}[op["sig"]]
+                    if (self.x, self.en, self.wen2) != before:
+                        # testbenches waiting for this input to change become runnable at once (value captured now)
+                        for j in range(n):
+                            if not done[j] and wait[j] is not None and wait[j]["k"] == "changed_in" and wait[j]["sig"] == op["sig"]:
+                                wait[j] = None
+                                runnable[j] = [newv]
+                                self.stats["woken_by_testbench"] = self.stats.get("woken_by_testbench", 0) + 1
                     self.stats["sets"] += 1
                     self.log.append([i, pc[i], self.now, "set", None, self.snapshot()])
                     if pc[i] + 1 < len(ops) and ops[pc[i] + 1]["k"] == "get":
@@ -228,14 +239,31 @@ class Reference:
                     elif k == "changed":
                         wait[i] = {"k": k, "sig": op["sig"]}
                         self.stats["changed_wait"] += 1
+                    elif k == "changed_in":
+                        wait[i] = {"k": k, "sig": op["sig"]}
                     return
             done[i] = True
+
+        runnable = {}
+
+        def run_passes():
+            """the engine's testbench loop: scan in the order added, repeat while anything ran"""
+            while runnable:
+                for i in range(n):
+                    if i in runnable:
+                        val = runnable.pop(i)
+                        if val == "start":
+                            self.log.append([i, -1, self.now, "start", None, self.snapshot()])
+                        else:
+                            self.log.append([i, pc[i], self.now, "wake", val, self.snapshot()])
+                            pc[i] += 1
+                        run_tb(i)
 
         self.round = 0
         # time 0: all testbenches run in order
         for i in range(n):
-            self.log.append([i, -1, 0, "start", None, self.snapshot()])
-            run_tb(i)
+            runnable[i] = "start"
+        run_passes()
         events = 0
         while not all(done):
             events += 1
@@ -324,10 +352,8 @@ class Reference:
                 self.stats["twins_same_instant"] += 1
             for i, val in woken:
                 wait[i] = None
-            for i, val in woken:
-                self.log.append([i, pc[i], self.now, "wake", val, self.snapshot()])
-                pc[i] += 1
-                run_tb(i)
+                runnable[i] = val
+            run_passes()
         return self.log
 
 
@@ -498,6 +524,8 @@ def simulate(case, order):
                         for _ in range(op["n"]):
                             t = ref.active_edges_after(op["dom"], t)
                         v = conv(await ctx.delay(Period(fs=t - now)))
+                    elif k == "changed_in":
+                        v = conv(await ctx.changed({"x": s.x, "en": s.en, "wen2": s.wen2}[op["sig"]]))
                     elif k == "edge":
                         v = conv(await ctx.edge(regs[op["sig"]][op["bit"]], op["pol"]))
                     else:
@@ -536,6 +564,7 @@ def run_case(case):
         F["zero_delay"] += rs["zero_delay"]
         for k in ("twins_same_instant", "coincident_domains", "set_then_get", "tick_sample", "edge_wait", "changed_wait"):
             P[k] += rs[k]
+        P["woken_by_testbench"] = P.get("woken_by_testbench", 0) + rs.get("woken_by_testbench", 0)
         P["replaced_comb"] += sum(1 for p in config["replace"] if p in ("s1", "s2", "s3", "out"))
         P["replaced_sync"] += sum(1 for p in config["replace"] if p in ("r1", "r2"))
         stats["steps"] += len(expected)
